@@ -5,7 +5,7 @@ import itertools
 import random
 
 from ..core import Ctx, Prop
-from ..udpdrive import CODES, FAM, FAMLEN, make_datagram
+from ..udpdrive import CODES, FAM, FAMLEN, KINDS, make_datagram
 
 PORTS = [20002, 10002, 20003, 10003]
 TYPES = list(CODES)
@@ -182,7 +182,7 @@ class C05(BridgeProp):
         # the user's callback fails now and then, and now and then a device sends a name cut inside a multi-byte character:
         # every OTHER broadcast must still be decoded exactly
         for k in range(7, len(dg), 23):
-            dg[k]["cbraise"] = ["exc", "base", "cancelled"][(k // 23) % 3]
+            dg[k]["cbraise"] = KINDS[(k // 23) % len(KINDS)]
         for k in range(13, len(dg), 37):          # the same broadcast again at once (devices repeat themselves every few seconds)
             dg.insert(k, dict(dg[k - 1]))
         for k in range(11, len(dg), 41):
@@ -326,7 +326,7 @@ class C07(BridgeProp):
                 else:
                     d = rdev(rng, name=rng.choice([[0xFF, 0xFE, 0x41], cut_name(rng)]))     # undecodable name
                 prev = d
-                dg.append({"do": "dgram", "p": p, "d": d, "cbraise": rng.choice(["exc", "exc", "base", "cancelled"]) if rng.random() < 0.2 else False})
+                dg.append({"do": "dgram", "p": p, "d": d, "cbraise": rng.choice(KINDS) if rng.random() < 0.2 else False})
             out.append(wrap(ports, with_gaps(rng, dg, every=rng.choice([1, 2, 5])) if len(out) % 3 == 1 else dg))
         # bursts: several datagrams reach the sockets in the same loop iteration (also across ports), some callbacks raise,
         # some datagrams cannot be decoded; every delivery is attributed by the device id the harness put into the datagram
@@ -349,7 +349,7 @@ class C07(BridgeProp):
                         d["code"] = [rng.randrange(256), rng.randrange(256)]
                     else:
                         d = {"t": "random", "n": rng.choice([0, 3, 159, 165, 168]), "magic": "no", "seed": rng.randrange(1 << 30)}
-                    items.append({"p": rng.choice(ports), "d": d, "cbraise": rng.choice(["exc", "base", "cancelled"]) if rng.random() < 0.3 else False})
+                    items.append({"p": rng.choice(ports), "d": d, "cbraise": rng.choice(KINDS) if rng.random() < 0.3 else False})
                 steps.append({"do": "burst", "items": items, "yields": rng.choice([2, 3, 5])})
                 steps.append({"do": "dgram", "p": rng.choice(ports), "d": rdev(rng), "cbraise": False})
             steps += [{"do": "stop"}, {"do": "cycle"}]
@@ -365,9 +365,21 @@ class C07(BridgeProp):
                 [{"do": "start"}, {"do": "stop"}, {"do": "cycle"}, {"do": "start"}],
                 [{"do": "start"}, {"do": "start", "br": 2}, {"do": "stop", "br": 2}, {"do": "cycle"}],
                 [{"do": "start", "br": 2}, {"do": "stop", "br": 2}, {"do": "cycle"}, {"do": "start"}, {"do": "stop", "br": 2}, {"do": "cycle"}],
+                # the second bridge object is never stopped by its owner: its failed start must have left nothing behind that
+                # hears (or takes away) the first bridge's broadcasts
+                [{"do": "start"}, {"do": "start", "br": 2}, {"do": "cycle"}],
+                [{"do": "start"}, {"do": "start", "br": 2}],
             ])
             dg = [{"do": "dgram", "p": rng.choice(ports), "d": rdev(rng), "cbraise": rng.random() < 0.15} for _ in range(rng.randrange(3, 12))]
             out.append({"ports": ports, "ports2": ports[: rng.randrange(1, nports + 1)], "steps": pre + dg + [{"do": "stop"}, {"do": "cycle"}]})
+        # every family x every way a user's callback can fail (the exception types a parser may also catch for itself):
+        # once per broadcast, and the next broadcast is delivered as if nothing had happened
+        for kind in KINDS:
+            dg = []
+            for typ in TYPES:
+                dg.append({"do": "dgram", "p": rng.choice(PORTS[:2]), "d": rdev(rng, typ), "cbraise": kind})
+                dg.append({"do": "dgram", "p": rng.choice(PORTS[:2]), "d": rdev(rng, typ), "cbraise": False})
+            out.append(wrap(PORTS[:2], dg))
         # valid broadcasts whose magic bytes are damaged must not reach the callback
         dg = []
         for typ in TYPES:
